@@ -113,6 +113,22 @@ def racing(a, b, n=2, timeout=None):
                 pool=dict(kind="reusable", max_workers=a, timeout=timeout), threads=thr)
 
 
+def racing_from(start, kws, timeout=None):
+    """Callers racing from a state where the singleton has to be created or replaced:
+    start in cold / broken / shutdown / healthy; kws = one kwargs dict per racing thread."""
+    pre = {"cold": [], "healthy": [["new"], ["submit", "s", "ok", 0], ["result", "s"]],
+           "broken": [["new"], ["submit", "s", "ok", 0], ["result", "s"], ["kill", 0], ["settle"]],
+           "shutdown": [["new"], ["submit", "s", "ok", 0], ["result", "s"],
+                        ["shutdown", True, False]]}[start]
+    thr = [pre + [["start_users"]]]
+    for i, kw in enumerate(kws):
+        thr.append([["reuse", dict(kw)], ["submit", f"r{i}", "ok", i], ["result", f"r{i}"]])
+    thr[0] += [["reuse", dict(kws[0])], ["submit", "m", "ok", 9], ["result", "m"]]
+    tag = "+".join(",".join(f"{k}={v}" for k, v in sorted(kw.items())) for kw in kws)
+    return dict(name=f"racing-from-{start}-{tag}-t{timeout}",
+                pool=dict(kind="reusable", max_workers=2, timeout=timeout), threads=thr)
+
+
 def main(tier):
     depth = 3 if tier == "quick" else 4
     plan = []
@@ -130,8 +146,20 @@ def main(tier):
     plan += [(PG.reusable_resize(2, 1, 0.05), 1, dict(kinds=("P",), zero_when="_resize", p_scope="worker")),
              (racing(1, 2, 2, None), 1, PT), (racing(2, 2, 2, 0.05), 1, PT),
              (racing(2, 1, 3, None), 1, dict(kinds=("P",)))]
+    Ponly = dict(kinds=("P",))
+    for start in ("cold", "broken", "shutdown", "healthy"):
+        plan.append((racing_from(start, [dict(max_workers=2), dict(max_workers=2)]), 1, Ponly))
+    plan += [(racing_from("healthy", [dict(max_workers=2, timeout=7), dict(max_workers=2)]), 1, Ponly),
+             (racing_from("cold", [dict(max_workers=1), dict(max_workers=2)]), 1, Ponly),
+             (racing_from("healthy", [dict(max_workers=2, timeout=7), dict(max_workers=1, timeout=7)]), 1, Ponly)]
     if tier == "thorough":
+        for start in ("cold", "broken", "shutdown", "healthy"):
+            plan.append((racing_from(start, [dict(max_workers=1), dict(max_workers=2), dict(max_workers=2)]), 1, Ponly))
+            plan.append((racing_from(start, [dict(max_workers=2, reuse=False), dict(max_workers=2)]), 1, Ponly))
+            plan.append((racing_from(start, [dict(max_workers=2), dict(max_workers=2)], 0.05), 1, dict(kinds=("P", "T"))))
+        plan += [(racing_from("broken", [dict(max_workers=2), dict(max_workers=2)]), 2, Ponly),
+                 (racing_from("cold", [dict(max_workers=2), dict(max_workers=2)]), 2, Ponly)]
         plan += [(racing(1, 2, 2, None), 2, dict(kinds=("P",))), (racing(2, 3, 2, 0.05), 1, dict(kinds=("P", "T", "K")))]
     return simcheck.run("C09", tier, plan, ORACLE,
                         extra_cov=dict(history_depth=depth, model_states=nstates,
-                                       histories=len(plan) - 3))
+                                       histories=sum(1 for p in plan if p[1] == 0)))
